@@ -239,7 +239,11 @@ def run(ck: Check):
         a = AccuracyQueue(max_len=cap)
         obs = []
         for i, v in enumerate(vals):
-            r = a.enqueue(value=v)
+            try:
+                r = a.enqueue(value=v)
+            except Exception as e:  # noqa: BLE001
+                ck.violation(dict(clause="raises", structure="AccuracyQueue", error=type(e).__name__, op="enqueue"), dict(what="AccuracyQueue.enqueue raised on a Boolean stream", max_len=cap, values=vals[: i + 1], error=repr(e)))
+                break
             content = [a.queue[(a.first + k) % cap] for k in range(a.count)]
             obs.append((int(a.num_true), int(a.num_false), a.size))
             exp = vals[max(0, i + 1 - cap) : i + 1]
@@ -259,6 +263,68 @@ def run(ck: Check):
         if [tuple(x) for x in r] != obs:
             ck.mismatch("Model/Queue.v aq_enqueue vs AccuracyQueue", dict(max_len=cap, values=vals, impl=obs, model=r))
 
+    # AccuracyQueue under ALL its operations (own generator): enqueue / dequeue / clear on capacities 1-3, the counters
+    # checked against a reference deque after every call; dequeue on an empty queue raises EmptyQueueError
+    import random as _random
+    from frouros.utils.data_structures import EmptyQueueError as _EQE
+
+    prng = _random.Random(181818)
+    for k in range(40 if not thorough else 300):
+        cap = prng.choice([1, 1, 2, 3])
+        a = AccuracyQueue(max_len=cap)
+        ref = collections.deque()
+        hist = []
+        for _ in range(prng.randrange(4, 25)):
+            op = prng.choice(["T", "T", "F", "D", "D", "C"])
+            hist.append(op)
+            try:
+                if op in "TF":
+                    a.enqueue(value=(op == "T"))
+                    if len(ref) == cap:
+                        ref.popleft()
+                    ref.append(op == "T")
+                elif op == "D":
+                    if ref:
+                        got = a.dequeue()
+                        exp = ref.popleft()
+                        if bool(got) != exp:
+                            ck.violation(dict(clause="accuracy-queue-counts", op="dequeue"), dict(what="dequeue returned another element than the oldest", max_len=cap, ops=hist, got=bool(got), expected=exp))
+                            break
+                    else:
+                        try:
+                            a.dequeue()
+                            ck.violation(dict(clause="accuracy-queue-counts", op="dequeue-empty"), dict(what="dequeue on an empty AccuracyQueue did not raise EmptyQueueError", max_len=cap, ops=hist))
+                            break
+                        except _EQE:
+                            pass
+                else:
+                    a.clear()
+                    ref.clear()
+            except Exception as e:  # noqa: BLE001
+                ck.violation(dict(clause="raises", structure="AccuracyQueue", error=type(e).__name__), dict(what="a legal AccuracyQueue operation raised", max_len=cap, ops=hist, error=repr(e)))
+                break
+            content = [a.queue[(a.first + j) % cap] for j in range(a.count)]
+            if content != list(ref) or a.num_true != sum(ref) or a.num_false != len(ref) - sum(ref) or a.size != len(ref):
+                ck.violation(dict(clause="accuracy-queue-counts", op="sequence"), dict(what="contents / counters differ from a bounded deque", max_len=cap, ops=hist, contents=content, num_true=int(a.num_true), num_false=int(a.num_false), expected=list(ref)))
+                break
+        ck.case(dict(kind="accuracy-queue-ops", cap=cap, n=len(hist)), nontrivial="D" in hist, key=repr(("aqops", cap, hist)))
+        ck.count("accuracy_queue_op_sequences")
+    # EWMA at the ends of its range and on extreme magnitudes: mean = alpha x + (1 - alpha) mean as written (exact for
+    # alpha = 1: the last value; finite whenever the weighted sum is)
+    for alpha, xs in ((1.0, [1e16, 1.0, -3.0]), (1.0, [-1e300, 2.5]), (0.0, [5.0, 1e300]), (0.1, [1.7e308, -1.7e308, 1.7e308]), (0.5, [1e308, 1e308, -1e308])):
+        e = EWMA(alpha=alpha)
+        got = []
+        for x in xs:
+            e.update(x)
+            got.append(float(e.get()))
+        ref, exp = 0.0, []
+        for x in xs:
+            ref = alpha * x + (1 - alpha) * ref
+            exp.append(ref)
+        ck.case(dict(kind="ewma-extreme", alpha=alpha, values=xs), nontrivial=True, key=repr(("ewma-extreme", alpha, xs)))
+        ck.count("ewma_extreme_cases")
+        if any(not (g == r or (math.isfinite(r) and abs(g - r) <= 1e-12 * abs(r))) for g, r in zip(got, exp)):
+            ck.violation(dict(clause="statistic-definition", stat="EWMA", regime="extreme"), dict(what="EWMA differs from alpha x + (1 - alpha) mean on extreme magnitudes / at the ends of alpha's range", alpha=alpha, values=xs, got=got, expected=exp))
     # ---------------------------------------------------------------- statistics
     ck.rule(
         "statistics: structured random real streams (constant, gaussian, shifted, ramps, ties, cancellation-prone), parameters on their boundaries "
